@@ -119,6 +119,9 @@ def render(case, rot=0):
                 qo, qc = "'", "'"
             core = dt
             opened = core.startswith('open')
+            closed_c = core.endswith('+close#')
+            if closed_c:
+                core = core[:-1]
             closed = core.endswith('+close')
             if core.startswith('open+'):
                 core = core[5:]
@@ -138,7 +141,7 @@ def render(case, rot=0):
             else:
                 line = (dind + text) if text else ''
             if closed:
-                line = line + qc
+                line = line + qc + ('  # noqa: trailing comment' if closed_c else '')
             out.append(line)
         else:
             raise KeyError(t)
